@@ -259,6 +259,75 @@ def run(prog, rep, tier):
               sample={'tcp_template_hex': tcp[0].hex() if tcp else None, 'serial_template_hex': ser_templates[0].hex() if ser_templates and ser_templates[0] else None,
                       'templates_by_scheme': [(s.decode() if s else None, l.hex() if l else None) for s, l in all_templates]})
     rep.floor('format sites in from_str', len(all_templates), 3)
+    endpoint_provenance(prog, rep, src_fs)
+
+
+# accessors of url::Url whose result may become part of the endpoint text.  `host_str` is the URL's own spelling of the host
+# (an IPv6 literal keeps its brackets, so "host:port" stays a socket address); `host()` / `domain()` are different functions of
+# the same URL (Host::Ipv6 displays a bare address; domain() is None for IP literals).
+URL_OK = {'parse', 'join', 'host_str', 'port_or_known_default', 'port', 'path', 'scheme', 'as_str'}
+
+
+def _url_tags(prog, body, memo):
+    """names of the url-crate functions called in a body, its closures and its workspace callees"""
+    if body['id'] in memo:
+        return memo[body['id']]
+    memo[body['id']] = out = set()
+    todo = [body] + [cb for cb in prog.bodies.values() if cb['kind'] == 'closure' and cb['name'].startswith(body['name'] + '::{closure')]
+    for b in todo:
+        for bb in b['blocks']:
+            t = bb['t']
+            if t and t['k'] == 'call' and t['callee']:
+                c = t['callee']
+                if _is_url_fn(c):
+                    out.add(c.get('item'))
+                tgt = prog.bodies.get(c.get('rdid') or '')
+                if tgt is not None and tgt['crate'] in ('jet1090', 'rs1090') and tgt is not body:
+                    out |= _url_tags(prog, tgt, memo)
+    return out
+
+
+def _is_url_fn(c):
+    n = c.get('did') or c.get('name') or ''
+    return n.startswith('url::') or '<url::' in n or ' url::' in n
+
+
+def endpoint_provenance(prog, rep, src_fs):
+    """U6 (after seed C16-s7): the text of a tcp / udp / websocket endpoint built by Source::from_str is made of the URL's own
+    host string, its port and its path - no other view of the URL (Url::host / Host's Display, Url::domain, ...) flows into it."""
+    import dataflow
+    memo = {}
+
+    def cres(c_, ats, args):
+        allt = set().union(*ats) if ats else set()
+        if _is_url_fn(c_):
+            return allt | {('url', c_.get('item'))}
+        tgt = prog.bodies.get(c_.get('rdid') or '')
+        if tgt is not None and tgt['crate'] in ('jet1090', 'rs1090'):
+            return allt | set(('url', x) for x in _url_tags(prog, tgt, memo))
+        return None
+    tt = dataflow.Taint(prog, src_fs, lambda pl: None, call_result=cres)
+    nagg = 0
+    for bb in src_fs['blocks']:
+        for s_ in bb['s']:
+            if s_['k'] == 'assign' and s_['rv']['k'] == 'agg' and s_['rv']['ak']['k'] == 'adt':
+                ty_ = prog.types[s_['rv']['ak']['ty']]
+                if not ty_['name'].endswith('source::Address'):
+                    continue
+                vname = ty_['variants'][s_['rv']['ak'].get('variant', 0)]['name']
+                if vname not in ('Tcp', 'Udp', 'Websocket'):
+                    continue
+                nagg += 1
+                got = set()
+                for o in s_['rv']['ops']:
+                    got |= set(x[1] for x in tt.operand_taint(o) if isinstance(x, tuple) and x[0] == 'url')
+                extra = sorted(got - URL_OK)
+                rep.check('host_str' in got and not extra, 'U6-endpoint-provenance', 'Source::from_str#Address::%s' % vname, '%s:%s' % (src_fs['file'], s_.get('sp')),
+                          'the %s endpoint text is built from %s; expected the URL\'s own host string (host_str), port and path only%s'
+                          % (vname, sorted(got), (': %s is another view of the URL (an IPv6 literal loses its brackets through Host\'s Display, domain() is None for IP '
+                                                  'literals)' % extra) if extra else ''),
+                          sample={'variant': vname, 'url_accessors': sorted(got)})
+    rep.floor('Address values built in Source::from_str', nagg, 3)
 
 
 def resolve_template(prog, body, op):
